@@ -135,10 +135,51 @@ def definitely_broken(piece):
     lines = piece.split('\n')
     if len(lines) < 2 or lines[1].strip('\r ') == '':
         return 'no column line'
-    if not stack:
-        first = lines[1].lstrip(' ')
-        if not re.match(r'[a-z]', first):
-            return 'illegal first column name'
+    first = lines[1].lstrip(' ')
+    if not re.match(r'[a-z]', first):
+        return 'illegal first column name'
+    bad = bad_column_name(lines[1].rstrip('\r'))
+    if bad:
+        return bad
+    return None
+
+
+COLNAME = re.compile(r'[a-z][a-zA-Z0-9_]*(?= |$)')
+
+
+def bad_column_name(line):
+    """The column line is `name [meta]` segments separated by top-level commas; every segment must start
+    with a lexically valid tag name.  Gives up (None) on anything it cannot split with certainty."""
+    segs, depth, cur, i, n = [], 0, '', 0, len(line)
+    while i < n:
+        c = line[i]
+        if c in '"`':
+            j = i + 1
+            while j < n and line[j] != c:
+                j += 2 if line[j] == '\\' else 1
+            if j >= n:
+                return None
+            cur += line[i:j + 1]
+            i = j + 1
+            continue
+        if c in '([{':
+            depth += 1
+        elif c in ')]}':
+            depth -= 1
+            if depth < 0:
+                return None
+        if c == ',' and depth == 0:
+            segs.append(cur)
+            cur = ''
+        else:
+            cur += c
+        i += 1
+    if depth != 0:
+        return None
+    segs.append(cur)
+    for seg in segs:
+        if not COLNAME.match(seg.strip(' ')):
+            return 'illegal column name'
     return None
 
 
